@@ -106,7 +106,9 @@ func opsFor(f *sfnt.Font, subsetOK bool) []op {
 			for k := 0; k < 2; k++ {
 				k := k
 				ops = append(ops, op{"NewLayouter+Layout", k, func(f *sfnt.Font, w *simio.Writer) uint64 {
-					l, err := f.NewLayouter(language.English, nil, nil)
+					// languages of several scripts; nil = the library's default feature sets
+					lang := []language.Tag{language.English, language.Arabic}[k]
+					l, err := f.NewLayouter(lang, nil, nil)
 					if err != nil {
 						return 1
 					}
@@ -174,6 +176,22 @@ func throughDisk(f *sfnt.Font) *sfnt.Font {
 
 func chooseWorld(t *tape.Tape) world {
 	w := chooseWorld0(t)
+	if w.subsetOK && t.Chance(1, 3) {
+		// substitution lookups of the kinds Font.Subset handles (GSUB 1-4),
+		// several of them, no GDEF: subsetting drops and renumbers lookups
+		build, seed := w.build, t.Raw()
+		w.build = func() *sfnt.Font {
+			f := build()
+			if f.NumGlyphs() > 12 {
+				g := &simgen.LookupGen{T: tape.New(seed), N: min(f.NumGlyphs(), 60), Types: []uint16{1, 2, 3, 4}}
+				f.Gsub = g.Info(true)
+				f.Gdef = nil
+			}
+			return f
+		}
+		w.name += "+substitution-lookups"
+		return w
+	}
 	if t.Chance(1, 12) {
 		// lookup data beyond 64 KiB: the encoder reorders lookups and
 		// introduces extension subtables (its rare path)
@@ -311,6 +329,7 @@ func run(c *wk.Case) {
 		c.Logf("%s", d)
 	}
 	before := simgen.FontDigest(F)
+	defaultsBefore := simgen.Digest([]any{gtab.GsubDefaultFeatures, gtab.GposDefaultFeatures})
 
 	// ---- concurrent phase
 	maxSwitches := 40 + t.Draw(400)
@@ -356,6 +375,9 @@ func run(c *wk.Case) {
 	}
 	c.Sig(st.TraceHash, simgen.Digest(desc), uint64(len(w.name)))
 
+	if simgen.Digest([]any{gtab.GsubDefaultFeatures, gtab.GposDefaultFeatures}) != defaultsBefore {
+		c.Fail("shared-defaults-modified", "gtab.DefaultFeatures", "the package-level default feature sets (gtab.GsubDefaultFeatures / GposDefaultFeatures), which every caller passing nil shares, changed during read-only operations")
+	}
 	// ---- oracle 3: the shared font is unchanged
 	if after := simgen.FontDigest(F); after != before {
 		// name the field: compare with an identical font built afresh
